@@ -213,7 +213,7 @@ func (c *corpus) steps() []step {
 			rip.multiSignTx(c, id("c16-src-tx-R"), []int{0}, true),
 		}
 	})
-	add("quit approvals 1, blacked release, second ripple signature (quorum)", func() []ctx {
+	add("quit approvals 1, blacked release, second and third ripple signature (quorum)", func() []ctx {
 		t := vote(msgB, 102, vals[3], "B->dest (target blacked)")
 		t.want = false
 		return []ctx{
@@ -221,9 +221,10 @@ func (c *corpus) steps() []step {
 			scApprove(side_chain_manager.APPROVE_QUIT_SIDE_CHAIN, chTmp, vals[1], true),
 			t,
 			rip.multiSignTx(c, id("c16-src-tx-R"), []int{1}, true),
+			rip.multiSignTx(c, id("c16-src-tx-R"), []int{2}, true),
 		}
 	})
-	add("quit approvals 2, whiteChain, release, third ripple signature, reconstruct", func() []ctx {
+	add("quit approvals 2, whiteChain, release, late ripple signature, reconstruct", func() []ctx {
 		nonce++
 		return []ctx{
 			scApprove(side_chain_manager.APPROVE_QUIT_SIDE_CHAIN, chTmp, vals[2], true),
@@ -231,7 +232,7 @@ func (c *corpus) steps() []step {
 			scApprove(side_chain_manager.APPROVE_QUIT_SIDE_CHAIN, chTmp, vals[4], false),
 			ok(ccm.BlackTx(chDest, true, nonce, polyenv.Multi(vals)), "cross_chain_manager.WhiteChain"),
 			vote(msgB, 102, vals[4], "B->dest (released)"),
-			rip.multiSignTx(c, id("c16-src-tx-R"), []int{2}, true),
+			rip.multiSignTx(c, id("c16-src-tx-R"), []int{3}, true),
 			rip.reconstructTx(id("c16-src-tx-R")),
 		}
 	})
@@ -278,9 +279,9 @@ func (c *corpus) steps() []step {
 	add("commitDpos with the new consensus node", func() []ctx { return []ctx{commitDpos(with1)} })
 	add("quitNode", func() []ctx {
 		nonce++
-		return []ctx{
+		return []ctx{ // the operator is derived from the 6 consensus nodes until quitNode takes c1 out
+			ok(ccm.BlackTx(chTmp, false, nonce, polyenv.Multi(with1)), "cross_chain_manager.BlackChain/6-node operator"),
 			ok(one(NM, node_manager.QUIT_NODE, gov.Peer(c1.PubHex, c1.Addr), c1), "node_manager.quitNode"),
-			ok(ccm.BlackTx(chTmp, false, nonce, polyenv.Multi(with1)), "cross_chain_manager.BlackChain (6-node operator)"),
 		}
 	})
 	add("commitDpos removing the quitting node", func() []ctx { return []ctx{commitDpos(vals)} })
